@@ -15,6 +15,7 @@ TARGETS = {
 CHECKS = {
     "C11": dict(
         promote=True,   # thorough bounds cost seconds: used for the quick tier as well
+        deep=True,      # ./check adds --deep for the thorough tier: bounds beyond the promoted ones (see bounds["thorough"])
         level="model_checking",
         runs=[dict(name="drbg", target="h_drbg", args=[], quick=[], thorough=[])],
         deadline=dict(quick=150, thorough=600),
